@@ -91,6 +91,8 @@ type world struct {
 	mainWord uint32 // futex word main waits on
 	done     uint32 // 1 = all finished, 2 = deadlock
 	overflow uint32 // a table of the simulator was full: the run is not a valid simulation
+	gen      uint32 // incremented by every Run: tasks left over from a deadlocked run must never continue
+	zombie   uint32 // futex word nobody ever changes
 	ops      uint64 // seam operations executed (locks, onces, pool, map ranges, file accesses): a deterministic measure of work
 	_        uint32
 
